@@ -4,6 +4,7 @@ package iscen
 
 import (
 	"context"
+	"encoding/binary"
 	"errors"
 	"fmt"
 	"sort"
@@ -39,6 +40,41 @@ type outcome struct {
 	partition int32
 }
 
+// attempt is one Produce request attempt for one record, as far as the
+// proxy can see it (history class of a failed-in-log violation).
+type attempt struct {
+	name       string
+	reqAt      int   // clock when the request was delivered to the broker (for fabricated answers: when the answer was delivered)
+	fabricated bool  // answered by the proxy with an err:<code> response: kfake never saw the request
+	respAt     int   // clock when a response was delivered to the client (0: never)
+	code       int16 // partition error code of that response
+	// discarded: at delivery an earlier record of the partition was still
+	// unpromised, so the batch was not the owner's first batch and the client
+	// ignores the response (sink.go handleReqRespBatch, !isOwnersFirstBatch).
+	discarded bool
+}
+
+type corrKey struct {
+	conn *netctl.Conn
+	corr int32
+}
+
+// KnownClass is the history class of the known finding: an attempt that the
+// broker processed stayed unanswered (or its answer was discarded), and a later
+// attempt was answered before the record was failed.
+const KnownClass = "failed-in-log:unanswered-attempt-then-answered-retry"
+
+// KeyOf is the nrun.Check.KeyOf of checks built on this family: the known
+// class is reported without the scenario name.
+func KeyOf(id string) func(scenario, key string) string {
+	return func(scenario, key string) string {
+		if key == KnownClass {
+			return id + ":" + key
+		}
+		return id + ":" + scenario + ":" + key
+	}
+}
+
 type spec struct {
 	name      string
 	partition int32
@@ -54,6 +90,11 @@ type state struct {
 	outcomes  map[string][]outcome // what each promise invocation saw (Offset/Partition read inside the promise)
 	produced  map[int32][]string   // order in which Produce was called, per partition
 	attempts  map[string]int       // Produce requests delivered to a broker that carried the record
+	partOf    map[string]int32     // record name -> partition
+	clock     int                  // order of hook / promise events
+	hist      map[string][]*attempt
+	byCorr    map[corrKey][]*attempt // delivered, not yet answered Produce requests
+	promised  map[string]int         // clock value of the first promise invocation
 	onProduce func()
 	nparts    int32
 	total     int           // records the scenario produces
@@ -66,6 +107,7 @@ func (st *state) record(name string, p int32) *kgo.Record {
 	st.led.Hand(name, r)
 	st.mu.Lock()
 	st.names[r] = name
+	st.partOf[name] = p
 	st.produced[p] = append(st.produced[p], name)
 	st.mu.Unlock()
 	return r
@@ -77,6 +119,10 @@ func (st *state) promise() func(*kgo.Record, error) {
 		st.mu.Lock()
 		if n, ok := st.names[r]; ok {
 			st.outcomes[n] = append(st.outcomes[n], outcome{err: err, offset: r.Offset, partition: r.Partition})
+			if _, dup := st.promised[n]; !dup {
+				st.clock++
+				st.promised[n] = st.clock
+			}
 			if len(st.outcomes) == st.total && len(st.outcomes[n]) == 1 {
 				close(st.allDone)
 			}
@@ -84,6 +130,130 @@ func (st *state) promise() func(*kgo.Record, error) {
 		st.mu.Unlock()
 		lp(r, err)
 	}
+}
+
+// head returns the earliest produced record of partition p whose promise has
+// not run: the owner's first batch. Called with st.mu held.
+func (st *state) head(p int32) string {
+	for _, n := range st.produced[p] {
+		if _, done := st.promised[n]; !done {
+			return n
+		}
+	}
+	return ""
+}
+
+// frameHook sees every frame the proxy delivers. A Produce request that
+// passes here reached kfake (processed; errafter included); a request answered
+// with a fabricated err:<code> response never passes here, only its response
+// does. It records per record the attempt history used to classify
+// failed-in-log violations.
+func (st *state) frameHook(c *netctl.Conn, dir string, key, ver int16, frame []byte) {
+	if key != 0 {
+		return
+	}
+	if dir == "req" {
+		if st.onProduce != nil {
+			st.onProduce()
+		}
+		if len(frame) < 12 {
+			return
+		}
+		k := corrKey{c, int32(binary.BigEndian.Uint32(frame[8:]))}
+		st.mu.Lock()
+		st.clock++
+		for _, n := range producedNames(frame) {
+			st.attempts[n]++
+			a := &attempt{name: n, reqAt: st.clock}
+			st.hist[n] = append(st.hist[n], a)
+			st.byCorr[k] = append(st.byCorr[k], a)
+		}
+		st.mu.Unlock()
+		return
+	}
+	if len(frame) < 8 {
+		return
+	}
+	k := corrKey{c, int32(binary.BigEndian.Uint32(frame[4:]))}
+	codes := map[int32]int16{}
+	if resp, ok := netctl.DecodeResponse(frame, key, ver); ok {
+		if pr, ok := resp.(*kmsg.ProduceResponse); ok {
+			for _, t := range pr.Topics {
+				for _, p := range t.Partitions {
+					codes[p.Partition] = p.ErrorCode
+				}
+			}
+		}
+	}
+	st.mu.Lock()
+	defer st.mu.Unlock()
+	st.clock++
+	if as, ok := st.byCorr[k]; ok {
+		// Answer to a request kfake processed.
+		delete(st.byCorr, k)
+		for _, a := range as {
+			p := st.partOf[a.name]
+			a.respAt, a.code = st.clock, codes[p]
+			a.discarded = st.head(p) != a.name
+		}
+		return
+	}
+	// Fabricated answer (err:<code>): the request is invisible to the hook. The
+	// client resends a partition from its first unfinished batch, so the answer
+	// is attributed to the partition's head record (approximation: a fabricated
+	// answer to a request pipelined behind another one is attributed to the
+	// head as well).
+	for p, code := range codes {
+		if n := st.head(p); n != "" {
+			st.hist[n] = append(st.hist[n], &attempt{name: n, reqAt: st.clock, fabricated: true, respAt: st.clock, code: code})
+		}
+	}
+}
+
+// history renders the attempts of a record for a violation text.
+func (st *state) history(n string) string {
+	var out []string
+	for _, a := range st.hist[n] {
+		switch {
+		case a.fabricated:
+			out = append(out, fmt.Sprintf("not-processed,answered(code %d)", a.code))
+		case a.respAt == 0 || a.respAt > st.promised[n]:
+			out = append(out, "processed,unanswered")
+		case a.discarded:
+			out = append(out, fmt.Sprintf("processed,answer(code %d)-discarded", a.code))
+		default:
+			out = append(out, fmt.Sprintf("processed,answered(code %d)", a.code))
+		}
+	}
+	return "attempts: " + strings.Join(out, " -> ")
+}
+
+// unanswered reports the first attempt of record n that kfake processed and
+// whose answer the client never used before n was failed: condition (a).
+func (st *state) unanswered(n string) *attempt {
+	failed := st.promised[n]
+	for _, a := range st.hist[n] {
+		if !a.fabricated && (a.respAt == 0 || a.respAt > failed || a.discarded) {
+			return a
+		}
+	}
+	return nil
+}
+
+// knownClass: (a) an attempt processed by the broker stayed unanswered and (b) a
+// later attempt was answered, and the answer used, before the record failed.
+func (st *state) knownClass(n string) bool {
+	a := st.unanswered(n)
+	if a == nil {
+		return false
+	}
+	failed := st.promised[n]
+	for _, b := range st.hist[n] {
+		if b != a && b.reqAt > a.reqAt && b.respAt != 0 && b.respAt < failed && !b.discarded {
+			return true
+		}
+	}
+	return false
 }
 
 // producedNames decodes a Produce request frame and returns the names of the
@@ -185,7 +355,7 @@ func scenario(v variant) *netctl.Scenario {
 				c.MoveTopicPartition("t", 1, 1)
 			}
 			st := &state{c: c, led: nscen.NewLedger(), names: map[*kgo.Record]string{}, outcomes: map[string][]outcome{},
-				produced: map[int32][]string{}, attempts: map[string]int{}, nparts: v.nparts, relaxed: v.relaxed, total: len(v.recs), allDone: make(chan struct{})}
+				produced: map[int32][]string{}, attempts: map[string]int{}, partOf: map[string]int32{}, hist: map[string][]*attempt{}, byCorr: map[corrKey][]*attempt{}, promised: map[string]int{}, nparts: v.nparts, relaxed: v.relaxed, total: len(v.recs), allDone: make(chan struct{})}
 			x.Data = st
 			opts := append([]kgo.Opt{
 				kgo.RecordPartitioner(kgo.ManualPartitioner()),
@@ -195,21 +365,7 @@ func scenario(v variant) *netctl.Scenario {
 				kgo.ProduceRequestTimeout(5 * time.Second),
 			}, v.opts...)
 			st.cl = nscen.NewClient(x, "p", c, opts...)
-			// Every Produce request that reaches a broker: which records it
-			// carries (attempt counts are part of the observed outcome class).
-			x.FrameHook = func(_ *netctl.Conn, dir string, key, _ int16, frame []byte) {
-				if dir != "req" || key != 0 {
-					return
-				}
-				if st.onProduce != nil {
-					st.onProduce()
-				}
-				st.mu.Lock()
-				for _, n := range producedNames(frame) {
-					st.attempts[n]++
-				}
-				st.mu.Unlock()
-			}
+			x.FrameHook = st.frameHook
 			cctx, cancel := context.WithCancel(context.Background())
 			x.OnCleanup(cancel)
 			x.Thread("T1", func(t *netctl.Thread) {
@@ -346,7 +502,22 @@ func final(x *netctl.Exec) {
 		case !st.relaxed:
 			if len(hs) > 0 {
 				k := "failed-in-log:" + errKind(o.err)
-				agg[k] = append(agg[k], fmt.Sprintf("%s promised error %q but is in the log at partition %d offset %d", n, o.err, hs[0].partition, hs[0].offset))
+				if st.knownClass(n) {
+					k = KnownClass
+				} else if st.unanswered(n) != nil {
+					// Failed together with an earlier record of the partition
+					// (failAllRecords) that is of the known class.
+					for _, n0 := range st.produced[want] {
+						if n0 == n {
+							break
+						}
+						if oc0 := st.outcomes[n0]; len(oc0) > 0 && oc0[0].err != nil && errKind(oc0[0].err) == errKind(o.err) && st.knownClass(n0) {
+							k = KnownClass
+							break
+						}
+					}
+				}
+				agg[k] = append(agg[k], fmt.Sprintf("%s promised error %q but is in the log at partition %d offset %d [%s]", n, o.err, hs[0].partition, hs[0].offset, st.history(n)))
 			}
 		}
 	}
